@@ -16,6 +16,9 @@ rfbClientPtr rfbClientIteratorHead(rfbClientIteratorPtr i);
 /* the handshake moves a client to its next state - unless rfbCloseClient() has closed it meanwhile */
 void rfbSetClientHandshakeState(rfbClientPtr cl, int state);
 
+/* rfbClientConnectionGone(); returns whether rfbShutdownServer() joins the client's thread */
+rfbBool rfbClientTeardown(rfbClientPtr cl);
+
 /* from tight.c */
 
 #ifdef LIBVNCSERVER_HAVE_LIBZ
